@@ -122,7 +122,12 @@ def isoformat(dt: datetime.date | datetime.time | datetime.timedelta) -> str:
     )
     datepart = "".join(
         f"{p}{s}"
-        for p, s in ((dur.years, "Y"), (dur.months, "M"), (dur.remaining_days, "D"))
+        for p, s in (
+            (dur.years, "Y"),
+            (dur.months, "M"),
+            # `remaining_days` excludes whole weeks, which have no designator of their own here.
+            (dur.weeks * 7 + dur.remaining_days, "D"),
+        )
         if p
     )
     timepart = "".join(
